@@ -74,6 +74,9 @@ type PriRec struct {
 	VLen int64  `json:"vlen"` // value length (-1 unknown)
 	VH   string `json:"vh"`   // short hash of the value
 	Bad  string `json:"bad"`
+	// Direct: found only at the position an index entry names, not by walking the file (behind a torn tail, or inside a
+	// span that GC has merged: the bytes of a subsumed record are still there and a superseded record list may name them)
+	Direct bool `json:"direct"`
 }
 
 type PriFile struct {
@@ -432,6 +435,7 @@ func Read(indexDir, indexBase, dataDir, dataBase string, cidPrimary bool) (*Proj
 							path = dataDir + "/" + dataBase
 						}
 						if r, ok := directPriRec(path, fn, plimit, local, cidPrimary); ok {
+							r.Direct = true
 							p.PF[i].Recs = append(p.PF[i].Recs, r)
 							p.Direct++
 						}
